@@ -1,5 +1,7 @@
 """R-FLUSH: a written tokio::fs::File is completed before it is dropped on a success path (a);
-the clone output is flushed (error-reporting completion) before success (b)."""
+its last write is also *reported* (flush / shutdown: seek, set_len, sync_* only park the error of the write in flight) before
+success - for the clone output (b) and, since F16 (`create_archive` rewound and copied its temporary file without ever asking
+for the error of the last write), for every written file."""
 from ..typestate import TypeState, Spec, contains_adt
 from ..facts import callee_q
 
@@ -69,7 +71,7 @@ def run(facts, strict_wrappers=('bitar::clone_output::CloneOutput',)):
                 inst['drops'].append({'state': rs, 'at': loc, 'outcome': oc})
                 if oc in ('Err',):
                     continue
-                bad = rs == 'Dirty' or (strict and rs != 'Clean')
+                bad = rs != 'Clean'
                 if bad:
                     findings.append({
                         'rule': 'R-FLUSH' + ('(b)' if strict and rs != 'Dirty' else '(a)'),
